@@ -94,7 +94,7 @@ impl<FF: FiniteField> Debug for Polynomial<'_, FF> {
 // Not derived because `PartialEq` is also not derived.
 impl<FF: FiniteField> Hash for Polynomial<'_, FF> {
     fn hash<H: std::hash::Hasher>(&self, state: &mut H) {
-        self.coefficients.hash(state);
+        self.coefficients().hash(state);
     }
 }
 
@@ -307,13 +307,14 @@ where
         let two = one + one;
         let mut squared_coefficients = vec![zero; squared_coefficient_len];
 
-        for i in 0..self.coefficients.len() {
-            let ci = self.coefficients[i];
+        let coefficients = self.coefficients();
+        for i in 0..coefficients.len() {
+            let ci = coefficients[i];
             squared_coefficients[2 * i] += ci * ci;
 
             // TODO: Review.
-            for j in i + 1..self.coefficients.len() {
-                let cj = self.coefficients[j];
+            for j in i + 1..coefficients.len() {
+                let cj = coefficients[j];
                 squared_coefficients[i + j] += two * ci * cj;
             }
         }
@@ -719,12 +720,13 @@ where
         let mut squared_coefficients = vec![zero; squared_coefficient_len];
 
         // TODO: Review.
-        for i in 0..self.coefficients.len() {
-            let ci = self.coefficients[i];
+        let coefficients = self.coefficients();
+        for i in 0..coefficients.len() {
+            let ci = coefficients[i];
             squared_coefficients[2 * i] += ci * ci;
 
-            for j in i + 1..self.coefficients.len() {
-                let cj = self.coefficients[j];
+            for j in i + 1..coefficients.len() {
+                let cj = coefficients[j];
                 squared_coefficients[i + j] += two * ci * cj;
             }
         }
@@ -1823,7 +1825,7 @@ where
     /// assert_eq!(Polynomial::new(bfe_vec![2, 3, 4]), g);
     /// ```
     pub fn truncate(&self, k: usize) -> Self {
-        let coefficients = self.coefficients.iter().copied();
+        let coefficients = self.coefficients().iter().copied();
         let coefficients = coefficients.rev().take(k + 1).rev().collect();
         Self::new(coefficients)
     }
